@@ -162,9 +162,9 @@ class GPMultiFidelitySearcher(GPFIFOSearcher):
         Part of constructor which can be different in subclasses
         """
         k = "resource_for_acquisition"
-        self.resource_for_acquisition = kwargs_int.get(k)
+        # Note: ``clone_from_state`` passes this argument even if it is ``None``
+        self.resource_for_acquisition = kwargs_int.pop(k, None)
         if self.resource_for_acquisition is not None:
-            kwargs_int.pop(k)
             assert isinstance(self.resource_for_acquisition, ResourceForAcquisitionMap)
         self.config_space_ext = kwargs_int.pop("config_space_ext")
         self._create_internal(**kwargs_int)
